@@ -20,7 +20,8 @@ Definition feq (a b : float) : bool := PrimFloat.eqb a b || (PrimFloat.is_nan a 
 (* what the harness observed after each operation *)
 Record tobs := { ob_fmd : float; ob_mmd : float; ob_imd : float; ob_mfp : float; ob_inmesh : bool; ob_meshtime : Z; ob_active : bool }.
 Record pobs := { ob_score : float; ob_bp : float; ob_connected : bool; ob_topics : list (topic * tobs) }.
-Record sobs := { so_peers : list (peer * pobs); so_nrecs : nat }.
+Record sobs := { so_peers : list (peer * pobs); so_nrecs : nat;
+                 so_ipsets : list (nat * list peer) (* the node's IP colocation sets: address -> peers counted at it *) }.
 
 Record sstepr := { ss_op : sop FA; ss_app : list (peer * float); ss_obs : sobs }.
 Record scase := { sc_params : sparams FA; sc_steps : list sstepr }.
@@ -43,6 +44,9 @@ Definition obs_ok (s : sstate FA) (app : list (peer * float)) (o : sobs) : nat :
                 && forallb (fun te => match aget (fst te) (topics FA ps) with Some ts => tobs_ok ts (snd te) | None => false end) (ob_topics po)
             end) (so_peers o)) then 13
   else if negb (forallb (fun e => feq (score FA s app (fst e)) (ob_score (snd e))) (so_peers o)) then 14
+  (* the colocation sets are exactly the addresses of the tracked peers *)
+  else if negb (forallb (fun e => forallb (fun p => match aget p (pst FA s) with Some ps => memb (fst e) (ips FA ps) | None => false end) (snd e)) (so_ipsets o)
+                && forallb (fun e => forallb (fun ip => memb (fst e) (aget_l ip (so_ipsets o))) (ips FA (snd e))) (pst FA s)) then 15
   else 0.
 
 (* ---- monitors on the observed numbers only ---- *)
@@ -64,29 +68,53 @@ Definition sticky_ok (P : sparams FA) (prev : option pobs) (now_ : pobs) : bool 
         end) (ob_topics now_)
   end.
 
-Definition mon_obs (P : sparams FA) (op : sop FA) (prev : sobs) (o : sobs) : nat :=
+(* what the monitor remembers of the operations themselves: the virtual clock, when each message was delivered, and which
+   peers' copies of it have been seen (a peer's copy counts once) *)
+Record smst := { sm_clock : Z; sm_deliv : list (nat * Z); sm_cnt : list (nat * peer); sm_old : list nat }.
+Definition smst0 : smst := {| sm_clock := 0; sm_deliv := []; sm_cnt := []; sm_old := [] |}.
+Definition smst_step (m : smst) (op : sop FA) : smst :=
+  match op with
+  | SAdvance _ d => {| sm_clock := sm_clock m + d; sm_deliv := sm_deliv m; sm_cnt := sm_cnt m; sm_old := sm_old m |}
+  (* only the first delivery of an id counts (a later one finds the record decided and is ignored) *)
+  | SDeliver _ i _ _ => match aget i (sm_deliv m) with
+                        | Some _ => m
+                        | None => {| sm_clock := sm_clock m; sm_deliv := (i, sm_clock m) :: sm_deliv m; sm_cnt := sm_cnt m; sm_old := sm_old m |}
+                        end
+  (* nothing is expected of an id that was ever rejected (its record is decided otherwise) *)
+  | SReject _ i _ _ _ => {| sm_clock := sm_clock m; sm_deliv := sm_deliv m; sm_cnt := sm_cnt m; sm_old := i :: sm_old m |}
+  | SDuplicate _ i from _ => {| sm_clock := sm_clock m; sm_deliv := sm_deliv m; sm_cnt := (i, from) :: sm_cnt m; sm_old := sm_old m |}
+  (* records may be collected and re-created: nothing is expected any more of the ids known so far *)
+  | SGc _ => {| sm_clock := sm_clock m; sm_deliv := sm_deliv m; sm_cnt := sm_cnt m; sm_old := map fst (sm_deliv m) ++ sm_old m |}
+  | _ => m
+  end.
+
+Definition mon_obs_ign (ign : nat -> bool) (ms : smst) (P : sparams FA) (op : sop FA) (prev : sobs) (o : sobs) : nat :=
+  let hit := fun (c : nat) (b : bool) => b && negb (ign c) in
+  (* C13: an address set counts a peer the node holds no score record for (any more): state attributable to a peer that
+     outlives everything else the node knows about it *)
+  if hit 136%nat (existsb (fun e => existsb (fun p => match aget p (so_peers o) with Some _ => false | None => true end) (snd e)) (so_ipsets o)) then 136
   (* counters never negative, never above their caps; no NaN anywhere *)
-  if existsb (fun e => negb (fle PrimFloat.zero (ob_bp (snd e)))
+  else if hit 102%nat (existsb (fun e => negb (fle PrimFloat.zero (ob_bp (snd e)))
                   || existsb (fun te =>
                         let t := snd te in
                         negb (fle PrimFloat.zero (ob_fmd t) && fle PrimFloat.zero (ob_mmd t) && fle PrimFloat.zero (ob_imd t) && fle PrimFloat.zero (ob_mfp t))
                         || match aget (fst te) (spTopics FA P) with
                            | Some tp => negb (fle (ob_fmd t) (tpFMDCap FA tp)) || negb (fle (ob_mmd t) (tpMMDCap FA tp))
-                           | None => false end) (ob_topics (snd e))) (so_peers o) then 102
+                           | None => false end) (ob_topics (snd e))) (so_peers o)) then 102
   (* right after a disconnect the entry is either gone or retained with a non-positive score *)
-  else if match op with
+  else if hit 103%nat (match op with
           | SRemovePeer _ p _ => match aget p (so_peers o) with
                                  | Some po => negb (ob_connected po) && PrimFloat.ltb PrimFloat.zero (ob_score po)
                                  | None => false end
-          | _ => false end then 103
-  else if match op with
+          | _ => false end) then 103
+  else if hit 106%nat (match op with
           | SRemovePeer _ p _ => match aget p (so_peers o) with
                                  | Some po => negb (ob_connected po) && negb (sticky_ok P (aget p (so_peers prev)) po)
                                  | None => false end
-          | _ => false end then 106
+          | _ => false end) then 106
   (* capped first deliveries, on observed numbers: a DeliverMessage credits the forwarder's first-delivery counter of a scored
      topic by one, up to the cap, whatever the node has recorded about the message before *)
-  else if match op with
+  else if hit 107%nat (match op with
           | SDeliver _ _ from t =>
               match aget t (spTopics FA P), aget from (so_peers prev), aget from (so_peers o) with
               | Some tp, Some pp, Some pn =>
@@ -98,10 +126,10 @@ Definition mon_obs (P : sparams FA) (op : sop FA) (prev : sobs) (o : sobs) : nat
                   end
               | _, _, _ => false
               end
-          | _ => false end then 107
+          | _ => false end) then 107
   (* squared invalid deliveries, on observed numbers: a rejection for a bad / missing / unexpected signature (or self origin) counts
      one invalid delivery against the forwarder, every time, whatever the node has recorded about that message id *)
-  else if match op with
+  else if hit 108%nat (match op with
           | SReject _ _ from t RSig =>
               match aget t (spTopics FA P), aget from (so_peers prev), aget from (so_peers o) with
               | Some _, Some pp, Some pn =>
@@ -112,55 +140,79 @@ Definition mon_obs (P : sparams FA) (op : sop FA) (prev : sobs) (o : sobs) : nat
                   end
               | _, _, _ => false
               end
-          | _ => false end then 108
+          | _ => false end) then 108
   (* a peer whose stream has just come up has an entry that is marked connected (only such entries decay and accrue mesh time;
      an entry not marked connected is thrown away when its retention period ends), whatever was retained about it before *)
-  else if match op with
+  else if hit 109%nat (match op with
           | SAddPeer _ p => match aget p (so_peers o) with Some po => negb (ob_connected po) | None => true end
-          | _ => false end then 109
+          | _ => false end) then 109
+  (* mesh deliveries inside the window: the first copy a mesh member sends of a message that was delivered no longer ago than
+     the topic's delivery window counts one mesh delivery for it (up to the cap), however long the validation had taken *)
+  else if hit 1001%nat (match op with
+          | SDuplicate _ i from t =>
+              match aget i (sm_deliv ms), aget t (spTopics FA P), aget from (so_peers prev), aget from (so_peers o) with
+              | Some td, Some tp, Some pp, Some pn =>
+                  match aget t (ob_topics pp), aget t (ob_topics pn) with
+                  | Some tb, Some tn =>
+                      ob_inmesh tb && negb (memb i (sm_old ms)) && negb (existsb (fun e => Nat.eqb (fst e) i && Nat.eqb (snd e) from) (sm_cnt ms))
+                      && (sm_clock ms - td <=? tpMMDWindow FA tp)
+                      && negb (feq (ob_mmd tn) (let x := PrimFloat.add (ob_mmd tb) PrimFloat.one in if PrimFloat.ltb (tpMMDCap FA tp) x then tpMMDCap FA tp else x))
+                  | _, _ => false end
+              | _, _, _, _ => false end
+          | _ => false end) then 1001
   (* no NaN anywhere (the class of a recorded finding: last, so that it hides no other clause of the same step) *)
-  else if existsb (fun e => PrimFloat.is_nan (ob_score (snd e))) (so_peers o) then 101
+  else if hit 101%nat (existsb (fun e => PrimFloat.is_nan (ob_score (snd e))) (so_peers o)) then 101
   else 0.
+
+Section ForProperty.
+(* [which] = 0: every clause; otherwise only the clauses of that property (code / 10), the others switched off so that they
+   cannot hide one of the property under check *)
+Variable which : nat.
+Definition mon_obs := mon_obs_ign (fun c => negb (Nat.eqb which 0 || Nat.eqb (c / 10) which || Nat.eqb (c / 100) which)).
 
 (* after a model/implementation disagreement: keep looking for a concrete failing history with the monitor alone *)
 (* the parameters the observation of a step is judged against are those in force AFTER it (a SetTopicScoreParams that
    lowers a cap must have re-capped the counters): [prm_after], a function of the operation alone
    (Proofs/ScoreParams.v [prm_after_step]) *)
-Fixpoint smon_only (P : sparams FA) (prev : sobs) (l : list sstepr) (idx : nat) : option (nat * nat) :=
+Fixpoint smon_only (ms : smst) (P : sparams FA) (prev : sobs) (l : list sstepr) (idx : nat) : option (nat * nat) :=
   match l with
   | [] => None
   | st :: l' => let P' := prm_after FA P (ss_op st) in
-                match mon_obs P' (ss_op st) prev (ss_obs st) with
-                | O | 101%nat => smon_only P' (ss_obs st) l' (S idx)
+                match mon_obs ms P' (ss_op st) prev (ss_obs st) with
+                | O | 101%nat => smon_only (smst_step ms (ss_op st)) P' (ss_obs st) l' (S idx)
                 | c => Some (idx, c) end
   end.
 
 (* 101 (a NaN score) is the class of a recorded finding: it is remembered and the replay goes on *)
-Fixpoint sexec (s : sstate FA) (prev : sobs) (l : list sstepr) (idx : nat) (fnd : option nat) : verdict :=
+Fixpoint sexec (ms : smst) (s : sstate FA) (prev : sobs) (l : list sstepr) (idx : nat) (fnd : option nat) : verdict :=
   match l with
   | [] => match fnd with Some i => VMonFail i 101 | None => VOk end
   | st :: l' =>
       let P' := prm_after FA (prm FA s) (ss_op st) in
-      let c0 := mon_obs P' (ss_op st) prev (ss_obs st) in
+      let c0 := mon_obs ms P' (ss_op st) prev (ss_obs st) in
+      let ms' := smst_step ms (ss_op st) in
       let fnd' := match fnd, c0 with Some i, _ => Some i | None, 101%nat => Some idx | None, _ => None end in
       match c0 with
       | O | 101%nat =>
           match sstep FA s (ss_op st) with
-          | None => match smon_only P' (ss_obs st) l' (S idx) with Some (i, c) => VMonFail i c | None => VMismatch idx 2 end
+          | None => match smon_only ms' P' (ss_obs st) l' (S idx) with Some (i, c) => VMonFail i c | None => VMismatch idx 2 end
           | Some s' => match obs_ok s' (ss_app st) (ss_obs st) with
-                       | O => sexec s' (ss_obs st) l' (S idx) fnd'
+                       | O => sexec ms' s' (ss_obs st) l' (S idx) fnd'
                        (* every counter the node holds agrees with the model (11-13 passed) and only the SCORE differs: the observed score is
                           not the v1.1 function of the node's own counters, parameters, application score and addresses - the first clause
                           of the property, on observed data *)
-                       | 14%nat => VMonFail idx 105
-                       | c => match smon_only P' (ss_obs st) l' (S idx) with Some (i, c') => VMonFail i c' | None => VMismatch idx c end
+                       | 14%nat => if Nat.eqb which 0 || Nat.eqb which 10 then VMonFail idx 105
+                                   else match smon_only ms' P' (ss_obs st) l' (S idx) with Some (i, c') => VMonFail i c' | None => VMismatch idx 14 end
+                       | c => match smon_only ms' P' (ss_obs st) l' (S idx) with Some (i, c') => VMonFail i c' | None => VMismatch idx c end
                        end
           end
       | c => VMonFail idx c
       end
   end.
 
-Definition check_scase (c : scase) : verdict := sexec (sinit FA (sc_params c)) {| so_peers := []; so_nrecs := 0 |} (sc_steps c) 0 None.
+Definition check_scase_for (c : scase) : verdict := sexec smst0 (sinit FA (sc_params c)) {| so_peers := []; so_nrecs := 0; so_ipsets := [] |} (sc_steps c) 0 None.
+End ForProperty.
+Definition check_scase := check_scase_for 0.
 
 (* constructors specialised to the float instance, for the generated cases files *)
 Definition mkTP (tw timw : float) (q : Z) (timc fw fd fc mw md mc mt : float) (win act : Z) (pw pd iw id : float) : tparams FA :=
